@@ -53,7 +53,10 @@ pub fn run_miri(prop: &str, tier: Tier, seed: u64, root: &Path, nproc: u64, tmp:
     let target = root.join("target").join("miri");
     let base = |c: &mut Command| {
         c.arg("+nightly").arg("miri").arg("run").arg("--offline").arg("-q").arg("--manifest-path").arg(&manifest).arg("--target-dir").arg(&target)
-            .env("RUSTFLAGS", "--cfg simple_dns_verif").env("CARGO_NET_OFFLINE", "true").env_remove("VERIF_TIER").env_remove("CARGO_TARGET_DIR");
+            .env("RUSTFLAGS", "--cfg simple_dns_verif").env("CARGO_NET_OFFLINE", "true").env_remove("VERIF_TIER").env_remove("CARGO_TARGET_DIR")
+            // cargo looks for .cargo/config.toml from the working directory upwards, not from the manifest: run inside the harness
+            // directory so that the path override of a VERIF_REPO run (background validation on a snapshot) applies here too
+            .current_dir(root.join("harness"));
     };
     // warm-up build (serialises the compilation; the parallel runs then start at once)
     let mut w = Command::new("cargo");
